@@ -122,3 +122,27 @@ def _matrix_keyed_by_split(m, n):
 
 def cache_keyed_completely(m, n):
     return _matrix_keyed_by_split(m, n).sum()
+
+
+class _PowerTable:
+    # a class-level memo keyed by too little: the stored power depends on the instance's exponent
+    _seen = {}
+
+    def __init__(self, p):
+        self.p = p
+
+    def power(self, y):
+        key = (type(y), y)
+        if key not in self._seen:
+            self._seen[key] = y ** (self.p + 1)
+        return self._seen[key]
+
+
+class _SquareTable:
+    # clean twin: the stored value is a function of the key alone
+    _seen = {}
+
+    def square(self, y):
+        if y not in self._seen:
+            self._seen[y] = y * y
+        return self._seen[y]
